@@ -53,7 +53,7 @@ _extra = {'constructions': 0, 'resort_cases': 0, 'halo_rows_compared': 0, 'parti
 
 def config(tier):
     if tier == 'quick':
-        return dict(shards=6, examples=400, numba_threads=1, boundscheck=False, shrink_calls=120, soft_s=85)
+        return dict(shards=6, examples=400, numba_threads=1, boundscheck=False, shrink_calls=60, soft_s=85)
     return dict(shards=12, examples=2000, numba_threads=1, boundscheck=[False, False, True], shrink_calls=300, soft_s=800)
 
 
